@@ -19,6 +19,8 @@ import (
 	"testing/synctest"
 	"time"
 
+	"github.com/metrico/qryn/reader/model"
+	"github.com/metrico/qryn/reader/service"
 	"github.com/metrico/qryn/zz_verif/simcheck"
 	"github.com/metrico/qryn/zz_verif/simrt"
 	"github.com/metrico/qryn/zz_verif/sqlfake"
@@ -103,6 +105,9 @@ func RunRead(t *testing.T, s Scenario) (ri *simcheck.RunInfo) {
 }
 
 func reqBound(r Req) time.Duration {
+	if r.Kind == "tail" {
+		return time.Duration(r.TailMs)*time.Millisecond + 45*time.Second
+	}
 	n := time.Duration(r.Result.Series*r.Result.RowsPer + 1)
 	b := n*time.Duration(r.Result.RowLatencyUs)*time.Microsecond + time.Duration(r.Result.QueryDelayUs)*time.Microsecond
 	b += n * time.Duration(r.WriteUs) * time.Microsecond * 4
@@ -204,6 +209,53 @@ func (st *runState) client(sys *System, ci int, reqs []Req) {
 		st.mu.Unlock()
 		if r.NoDB {
 			sys.Reg.failGets = 1
+		}
+		if r.Kind == "tail" {
+			// live tail is driven at the service level (the websocket upgrade needs a socket); the consumer follows
+			// the controller's contract: read until it is done, Close, drain
+			rec.Path = "tail " + r.Query
+			res := r.Result
+			res.BaseNs = time.Now().Add(-time.Minute).UnixNano()
+			st.db.SetScript(res)
+			ctx, cancel := context.WithCancel(sqlfake.WithScript(context.Background(), &res))
+			func() {
+				defer func() {
+					if p := recover(); p != nil {
+						rec.Panicked = fmt.Sprint(p)
+					}
+				}()
+				svc := &service.QueryRangeService{ServiceData: model.ServiceData{Session: sys.Reg}}
+				w, err := svc.Tail(ctx, r.Query)
+				if err != nil {
+					rec.Status = 500
+					return
+				}
+				rec.Status = 200
+				deadline := time.After(time.Duration(r.TailMs) * time.Millisecond)
+			loop:
+				for {
+					select {
+					case _, ok := <-w.GetRes():
+						if !ok {
+							break loop
+						}
+					case <-deadline:
+						break loop
+					}
+					simrt.Yield("tail-consumer")
+				}
+				w.Close()
+				cancel()
+				simrt.Go("tail-drain", func() {
+					for range w.GetRes() {
+					}
+				})
+			}()
+			cancel()
+			rec.Returned = true
+			rec.EndT = time.Now()
+			simrt.Yield("client:after-request")
+			continue
 		}
 		method, path := r.URL()
 		rec.Path = path
